@@ -4,7 +4,7 @@
    while the removed total is still short).  [bytes_removed_for_every_entry] is regenerated from put_impl on every run. *)
 From Coq Require Import ZArith NArith Bool List.
 Import ListNotations.
-From XetModel Require Import Base.Codec Gen.CacheFacts Model.Merkle Model.Cache Proofs.CacheProofs.
+From XetModel Require Import Base.Codec Gen.CacheFacts Model.Merkle Model.Cache Proofs.CacheProofs Proofs.CacheInvProofs Proofs.CacheOrphanProofs.
 Open Scope N_scope.
 
 (* num_items and total_bytes equal the count and the summed lengths of the tracked entries after every micro step of
@@ -22,6 +22,18 @@ Proof. exact (fun es c c' => crun_acc es c c' eq_refl). Qed.
 Theorem C13_capacity_after_insert : forall s o nw vs s' p',
   Acc s -> i_len nw <= cap s -> mstep s (PHookFW o nw) vs = (s', p', true) -> tbytes s' <= cap s'.
 Proof. exact (fun s o nw vs s' p' => commit_step_capacity s o nw vs s' p' eq_refl). Qed.
+
+(* no orphan files: in every reachable configuration every file on disk is tracked, or was just written by a put that
+   has not committed yet, or is queued for deletion by a put that has committed, or is about to be unlinked by a thread
+   that dropped its entry; so at a quiescent point every file belongs to a tracked entry *)
+Theorem C13_no_orphan_every_schedule : forall es c c', NoOrphan c -> crun c es = Some c' -> NoOrphan c'.
+Proof. exact crun_no_orphan. Qed.
+Theorem C13_quiescent_every_file_tracked : forall c, NoOrphan c -> Forall (fun p => exists r, p = PDone r) (snd c) ->
+  forall p content, fs_read (fs (fst c)) p = Some content -> exists k it v, p = item_path k it /\ InTr (tracked (fst c)) k (it, v).
+Proof. exact quiescent_all_tracked. Qed.
+Theorem C13_no_orphan_initially : forall capacity n,
+  NoOrphan ({| tracked := []; nitems := 0; tbytes := 0; fs := []; cap := capacity |}, repeat (PDone COk) n).
+Proof. exact NoOrphan_empty. Qed.
 
 (* the shape the source had before the repair (the byte total not reduced for a removed entry equal to the inserted one):
    two identical puts both past the lookup leave total_bytes at twice the item length with one entry tracked *)
@@ -41,3 +53,5 @@ Print Assumptions C13_step_keeps_counters_exact.
 Print Assumptions C13_counters_exact_every_schedule.
 Print Assumptions C13_capacity_after_insert.
 Print Assumptions C13_drift_refuted.
+Print Assumptions C13_no_orphan_every_schedule.
+Print Assumptions C13_quiescent_every_file_tracked.
